@@ -98,6 +98,7 @@ PROPS["C19"] = {
 			bounds="every 11-byte string whose leading varint announces a length > 11 (up to u64::MAX)", sample=f"[u8; 11] symbolic, length decoded by a reference varint reader -> {fn}", stubs=[MON], timeout=900)
 		for k, fn in [("packed", "read_pbf_packed_uint32"), ("blob", "read_pbf_blob"), ("string", "read_pbf_string"), ("sub_reader", "get_pbf_sub_reader")]
 	] + [
+		H("c19_get_sub_reader_any_length", CORE, c19c, funcs=["ValueReaderSlice::get_sub_reader"], bounds="8-byte buffer, any position 0..=8, any announced length (u64)", sample="position, length: u64 symbolic", timeout=900),
 		H("c19_sub_reader_any_length", CORE, c19c, funcs=["ValueReaderSlice::get_sub_reader", "ValueReader::read_blob", "ValueReader::read_string"],
 			bounds="8-byte buffer, any position 0..8, any announced length (u64)", sample="position, length: u64 symbolic", stubs=[MON]),
 	],
@@ -544,7 +545,7 @@ UNREGISTERED = {
 	# (anyhow context + Backtrace drop glue) for every feature: 1200 s / 7 GB without a verdict
 	"c11_filter_map_order_3", "c11_filter_map_order_4",
 	# overlong announced lengths: symbolic execution still explores the accepting path through the boxed sub-reader / from_utf8: 900 s without a verdict
-	"c19_pbf_packed_overlong", "c19_pbf_string_overlong", "c19_pbf_sub_reader_overlong",
+	"c19_pbf_packed_overlong", "c19_pbf_string_overlong", "c19_pbf_sub_reader_overlong", "c19_get_sub_reader_any_length",
 	# ran out of memory / time at the thorough caps
 	"c16_block_index_sparse", "c15_h11_pyramid_include_l0", "c15_h11_pyramid_include_l7", "c15_h11_pyramid_include_l31",
 }
